@@ -16,11 +16,20 @@ def gen_js(rng, flavour):
         args = ', '.join(rng.choice(ARGS) for _ in range(rng.randint(0, 3)))
         pre = rng.choice(['', '', 'let é = ', '/* 🦀 */ ', '  ', '\t', 'x = "日本"; '])
         post = rng.choice([';', '', '; // é', ';  '])
-        if rng.random() < 0.2:
-            # a call spanning lines
+        r = rng.random()
+        if r < 0.2:
+            # a call spanning lines, sometimes with an empty line inside
             lines.append(f'{pre}{w}(')
+            if rng.random() < 0.4:
+                lines.append('')
             lines.append(f'  {args or "1"},')
             lines.append(f'  2){post}')
+        elif r < 0.3:
+            # empty lines around code: context and merged groups then contain blank lines
+            lines.append('')
+            lines.append(f'{pre}{w}({args}){post}')
+            if rng.random() < 0.5:
+                lines.append('')
         else:
             lines.append(f'{pre}{w}({args}){post}')
     if flavour == 'first':
